@@ -1,14 +1,22 @@
 (* C06 -- hand model of optimism/treigen/treigen.py: solve(A, b, Delta).
    `eigh` is an oracle: its result (sig ascending, v = matrix whose COLUMNS are the eigenvectors, given as a list of rows)
    is an argument.  The hard-case branch is modelled as written (after repo commit 5a997d7): z = v[:,0] is the first COLUMN
-   of v, and the sign in tau is +1 when p.z = 0.
+   of v, and the sign in tau is +1 when p.z = 0.  As written after repo commits 4d37146 and 545a5c4: the early return for a
+   zero model Hessian (sigScale == 0), and the secular iteration as a `for _ in range(cap)` (cap = 100 in the source, read off
+   the AST by the harness on every run) with its three exits: the tolerance test at the head of a pass, the fixed point
+   `lamNew == lam`, and the exhaustion of the range.  There is no out-of-fuel result any more: the loop terminates by construction.
    Executable definitions only. *)
 From Coq Require Import ZArith QArith List Bool.
 From OV.base Require Import Num.
 From OV.model Require Import M_C06_Vec.
 Import ListNotations.
 
-Inductive trbranch := TInterior | THard | TSecular (iters : nat) | TOutOfFuel.
+(* which return statement / loop exit produced the step; the naturals count the updates of lam that were made:
+   TSecular  : the head test `not abs(bError) > 1e-9` stopped the loop (or the range ended with the test satisfied)
+   TStalled  : `if lamNew == lam: break`
+   TCapped   : the range ended with abs(bError) > 1e-9 still true
+   TZero     : the early return for sigScale == 0 *)
+Inductive trbranch := TInterior | THard | TSecular (iters : nat) | TZero | TStalled (iters : nat) | TCapped (iters : nat).
 
 Section Treigen.
   Context {T : Type} {NT : Num T}.
@@ -32,21 +40,25 @@ Section Treigen.
     let tau := ndiv ddmpp (nadd pz (nmul sgn (nsqrt (nadd (nmul pz pz) ddmpp)))) in
     vaxpy p tau z.
 
-  Fixpoint secular (fuel n : nat) (bvv sig : vec) (Delta lam pNormSq bError : T) : option (T * nat) :=
-    if nltb c_1em9 (nabs bError) then
-      match fuel with
-      | O => None
-      | S f =>
+  (* the secular loop; tol is the literal 1e-9 of the source (a parameter so that termination can be stated for every tolerance),
+     cap the passes left of the range, n the updates of lam made so far; returns the multiplier and the exit taken *)
+  Fixpoint secular (tol : T) (cap n : nat) (bvv sig : vec) (Delta lam pNormSq bError : T) : T * trbranch :=
+    match cap with
+    | O => (lam, if nltb tol (nabs bError) then TCapped n else TSecular n)
+    | S f =>
+      if nltb tol (nabs bError) then                        (* if not np.abs(bError) > 1e-9: break *)
         let qNormSq := qnorm_squared bvv (vshift lam sig) in
-        let lam' := nadd lam (nmul (ndiv pNormSq qNormSq) bError) in
-        let pNormSq' := pnorm_squared bvv (vshift lam' sig) in
-        let pNorm := nsqrt pNormSq' in
-        secular f (S n) bvv sig Delta lam' pNormSq' (ndiv (nsub pNorm Delta) Delta)
-      end
-    else Some (lam, n).
+        let lamNew := nadd lam (nmul (ndiv pNormSq qNormSq) bError) in
+        if neqb lamNew lam then (lam, TStalled n)           (* if lamNew == lam: break *)
+        else
+          let pNormSq' := pnorm_squared bvv (vshift lamNew sig) in
+          let pNorm := nsqrt pNormSq' in
+          secular tol f (S n) bvv sig Delta lamNew pNormSq' (ndiv (nsub pNorm Delta) Delta)
+      else (lam, TSecular n)
+    end.
 
   (* sig, v : what eigh(A) returned *)
-  Definition treigen_solve (fuel : nat) (sig : vec) (v : list vec) (b : vec) (Delta : T) : trbranch * vec :=
+  Definition treigen_solve (cap : nat) (sig : vec) (v : list vec) (b : vec) (Delta : T) : trbranch * vec :=
     let n := length sig in
     let bv := matvec (transpose_n n v) b in          (* v.T @ b *)
     let bvv := vmul bv bv in
@@ -55,6 +67,10 @@ Section Treigen.
       (TInterior, vneg (matvec v (vdiv bv sig)))
     else
       let sigScale := vmean_abs sig in
+      if neqb sigScale nzero then                      (* A = 0 *)
+        let bNorm := vnorm b in
+        (TZero, if nltb nzero bNorm then vscale (nopp (ndiv Delta bNorm)) b else vscale nzero b)   (* -(Delta/bNorm)*b  /  0.*b *)
+      else
       let eps := nmul c_1em12 sigScale in
       let minSig := sig0 in
       let lam := if nltb minSig eps then nadd (nopp minSig) eps else nzero in
@@ -66,10 +82,8 @@ Section Treigen.
         let pNormSq := pnorm_squared bvv (vshift lam sig) in
         let pNorm := nsqrt pNormSq in
         let bError := ndiv (nsub pNorm Delta) Delta in
-        match secular fuel O bvv sig Delta lam pNormSq bError with
-        | None => (TOutOfFuel, [])
-        | Some (lam', k) => (TSecular k, vneg (matvec v (vdiv bv (vshift lam' sig))))
-        end.
+        let '(lam', br) := secular c_1em9 cap O bvv sig Delta lam pNormSq bError in
+        (br, vneg (matvec v (vdiv bv (vshift lam' sig)))).
 
   (* energy(A, b, s) with A given by its rows *)
   Definition tr_energy (A : list vec) (b s : vec) : T := nadd (nmul nhalf (vdot s (matvec A s))) (vdot s b).
